@@ -450,6 +450,7 @@ class _TraceMixin:
         rec['outcome'] = 'reply'
         if self.KIND == 'value':
             rec['raw'] = _RecFVR.last_raw
+            rec['pages_int'] = resp.pages
             if _RecFVR.last_raw and isinstance(_RecFVR.last_raw[1], int):
                 self._adv_pages[peer] = max(self._adv_pages.get(peer, 0), _RecFVR.last_raw[1])
         self._cur = rec
@@ -602,3 +603,156 @@ class Sim:
         d = Distance(key)
         alive = [nd for k, nd in enumerate(self.nodes) if self.addr(k) not in self.net.dead and k not in exclude]
         return sorted(alive, key=lambda nd: d(nd.protocol.node_id))
+
+
+class LightAnnouncer:
+    """A real KademliaProtocol (no routing maintenance) used as one more announcing peer: it runs the real
+    store_to_peer (findValue for the token, then store) against the storing nodes it is told about."""
+
+    def __init__(self, sim, j, node_id=None, tcp_port=3333):
+        self.sim = sim
+        ip = ip_of(300 + j)
+        nid = node_id or constants.digest(b'announcer-%d-%d' % (sim.seed, j))
+        self.protocol = KademliaProtocol(sim.loop, PeerManager(sim.loop), nid, ip, 4444, tcp_port)
+        self.addr = (ip, 4444)
+        self.protocol.connection_made(_Transport(sim.net, self.addr))
+        sim.net.attach(self.addr, self.protocol)
+
+    async def announce_to(self, blob, nodes):
+        out = []
+        for nd in nodes:
+            peer = make_kademlia_peer(nd.protocol.node_id, nd.protocol.external_ip, nd.protocol.udp_port)
+            out.append(await self.protocol.store_to_peer(blob, peer))
+        return out
+
+
+# ==============================================================================================
+# D. finder trace -> model events, comparison
+# ==============================================================================================
+
+FAIL_EXC = {'TimeoutError', 'ValueError', 'RemoteException', 'CancelledError'}
+PAGES_CAP = 100000     # advertised page counts above this are passed to the model as this value
+
+
+def _compact_hex_identity(h):
+    b = bytes.fromhex(h)
+    return b[:4].hex() + b[6:].hex() + ':%d' % int.from_bytes(b[4:6], 'big')
+
+
+def trace_to_model(finder):
+    """returns (request dict for Model 'frun', expected outputs per event, anomalies)"""
+    evs, exp, anomalies = [], [], []
+    started = False
+    for rec in finder._events:
+        kind = rec['e']
+        calls = rec.get('calls', [])
+        outs = []
+        if kind == 'init':
+            evs.append({'e': 'init', 'sl': [c['peer'] for c in calls if c['c'] in ('add', 'sched')]})
+            outs = [['sched', c['peer']['pid']] for c in calls if c['c'] == 'sched']
+        elif kind == 'round':
+            good = []
+            for c in calls:
+                if c['c'] == 'sched':
+                    outs.append(['sched', c['peer']['pid']])
+                elif c['c'] == 'put':
+                    good = c['good']
+                    outs.extend(['yield', y] for y in c['yielded'])
+                    if c['finish']:
+                        outs.append(['finish'])
+                elif c['c'] == 'exhausted' and finder.KIND == 'value':
+                    outs.append(['finish'])
+            popped = rec['popped']
+            if len(popped) > 1:
+                anomalies.append('round with %d pops' % len(popped))
+            if not popped and not started:
+                evs.append({'e': 'start', 'good': good})
+            else:
+                evs.append({'e': 'done', 'p': popped[0] if popped else 0, 'good': good})
+            started = True
+        elif kind == 'probe':
+            if rec['outcome'] == 'exc':
+                exc = rec.get('exc')
+                if exc in FAIL_EXC:
+                    evs.append({'e': 'fail', 'p': rec['pid']})
+                    if not any(c['c'] == 'reset' for c in calls):
+                        anomalies.append('fail without reset')
+                elif exc == 'TransportNotConnected':
+                    evs.append({'e': 'notconn', 'p': rec['pid']})
+                    outs = [['finish']]
+                else:
+                    evs.append({'e': 'crash', 'p': rec['pid']})
+                    if 'escaped' not in rec:
+                        anomalies.append('exception %s did not escape' % exc)
+                exp.append({'outs': outs, 'tag': 2 if evs[-1]['e'] == 'crash' else 0})
+                continue
+            adds = [c for c in calls if c['c'] == 'add']
+            if not adds:
+                anomalies.append('reply without add')
+                continue
+            me, contacts = adds[0], adds[1:]
+            checked = bool(rec.get('checked'))
+            cj = [[c['peer'], c['bad']] for c in contacts]
+            if finder.KIND == 'node':
+                good = []
+                for c in calls:
+                    if c['c'] == 'put':
+                        good = c['good']
+                        outs.extend(['yield', y] for y in c['yielded'])
+                        if c['finish']:
+                            outs.append(['finish'])
+                evs.append({'e': 'nreply', 'p': me['peer'], 'selfbad': me['bad'], 'contacts': cj, 'checked': checked,
+                            'found_key': bool(rec.get('found_key')), 'good': good})
+                exp.append({'outs': outs, 'tag': 0 if checked else 2})
+                continue
+            raw, pages = rec.get('raw') or ([], 0)
+            if isinstance(raw, (list, dict, bytes, bytearray)):
+                items = [x.hex() if isinstance(x, (bytes, bytearray)) else None for x in list(raw)]
+            else:
+                items = [None]
+            pages = rec.get('pages_int', 0)
+            for y in rec.get('vyield', []):
+                outs.append(['vyield', y])
+            evs.append({'e': 'vreply', 'p': me['peer'], 'selfbad': me['bad'], 'raw': items,
+                        'pages': max(0, min(int(pages), PAGES_CAP)), 'contacts': cj, 'checked': checked})
+            exp.append({'outs': outs, 'tag': None if checked else 2})
+            continue
+        elif kind == 'close':
+            evs.append({'e': 'close'})
+            outs = [['finish']]
+        elif kind == 'stray':
+            anomalies.append('stray call %s' % calls[0]['c'])
+            continue
+        exp.append({'outs': outs, 'tag': 0})
+    req = {'kind': finder.KIND, 'key_is_self': finder._meta['key_is_self'], 'maxres': finder.max_results, 'events': evs}
+    return req, exp, anomalies
+
+
+def canon_model_steps(steps):
+    out = []
+    for s in steps:
+        outs = []
+        for o in s['outs']:
+            if o[0] == 'vyield':
+                outs.append(['vyield', [_compact_hex_identity(h) for h in o[1]]])
+            else:
+                outs.append(o)
+        out.append({'outs': outs, 'tag': s['tag']})
+    return out
+
+
+def compare_trace(run, model, finder, label):
+    req, exp, anomalies = trace_to_model(finder)
+    res = model.call('frun', **req)
+    got = canon_model_steps(res['steps'])
+    # the model decides the tag of value replies itself (ok / discarded); crash must agree
+    for e, g in zip(exp, got):
+        if e['tag'] is None:
+            e['tag'] = g['tag'] if g['tag'] in (0, 1) else 'not-crash'
+    impl = {'steps': exp, 'sched': finder._n_sched,
+            'contacted': sorted(finder._pid(p) for p in finder.contacted),
+            'active': [finder._pid(p) for p in finder.active.keys()], 'anomalies': anomalies}
+    mod = {'steps': got, 'sched': res['sched'], 'contacted': sorted(res['contacted']), 'active': res['active'],
+           'anomalies': []}
+    case = {'part': 'finder-trace', 'label': label, 'request': req}
+    return case, impl, mod, res
